@@ -15,6 +15,7 @@ pub mod interp;
 pub mod known;
 pub mod lockstep;
 pub mod multi;
+pub mod nested;
 pub mod oracle;
 pub mod props;
 pub mod real;
